@@ -14,7 +14,7 @@ Open Scope N_scope.
 
 Definition with_adaptor (e : env) (a : adaptor) : env :=
   {| e_kind := e_kind e; e_adaptor := a; e_len := e_len e; e_start := e_start e; e_end := e_end e;
-     e_hint := e_hint e; e_owning := e_owning e; e_mode := e_mode e; e_crash := e_crash e |}.
+     e_hint := e_hint e; e_owning := e_owning e; e_mode := e_mode e; e_crash := e_crash e; e_gap := e_gap e |}.
 
 Lemma drops_after_adaptor e a k rs : drops_after (with_adaptor e a) k rs = drops_after e k rs.
 Proof.
